@@ -67,7 +67,7 @@ def replay_state(rep, state, pid, tag=""):
     try:
         kind, real = _apply(state)
     except W.NonIntegral as ex:
-        rep.violation(f"{site}:non-integral", dict(base=state["base"], hist=hist, error=str(ex)))
+        rep.violation(f"{site}:non-integral", dict(base=_js(state["base"]), hist=_js(hist), error=str(ex)))
         return None
     except MachineryError:
         raise
